@@ -433,6 +433,7 @@ def prepare(case, res):
         else:
             P.outs.append((r["out"], (mid(o["name"], o["mark"]), bool(o["must"]) and kind == "routing")))
     P.fallback = (mid(case["fallback"], 0), False)
+    P.ids = ids
     # atom oracle table
     bits = {}
     atom_err = False
@@ -704,7 +705,7 @@ def run_coq(prepared, tag):
         return None, None, "cannot parse coq output (%d vs %d): %s" % (len(per), len(prepared), body[:500])
     errors = [[(int(a), int(b)) for a, b in re.findall(r"\((\d+),(\d+)\)", p)] for p in per]
     m2 = re.search(r"S\s*=\s*(.*?)\n\s*:\s*list", outtxt, re.S)
-    sigs = [tuple(int(x) for x in t) for t in re.findall(r"\((\d+),(\d+),(\d+),(\d+),(\d+),(\d+),(\d+)\)", re.sub(r"\s+", "", m2.group(1)).replace("%N", ""))]
+    sigs = [tuple(int(x) for x in t) for t in re.findall(r"\((\d+),(\d+),(\d+),(\d+),(\d+),(\d+),(\d+),(\d+)\)", re.sub(r"\s+", "", m2.group(1)).replace("%N", ""))]
     if len(sigs) != len(prepared):
         return None, None, "cannot parse coq signatures (%d vs %d)" % (len(sigs), len(prepared))
     return errors, sigs, None
@@ -755,7 +756,7 @@ def classify(ev):
         ms.append(M_CRASH)
     if s and s[3] > 0:
         ms.append(M_NEG)
-    if has_empty_expansion(P):
+    if has_empty_expansion(P) or (s and s[7] > 0):
         ms.append(M_EMPTY)
     if s and s[4] > 0:
         ms.append(M_OUT)
@@ -827,6 +828,12 @@ def describe(case, ev):
         d["decision_optimised_list"] = P.res["dec_opt"][i]
         d["decision_list_as_written_(matcher_of_unmerged_list)"] = P.res["dec_raw"][i]
         d["optimised_rules"] = P.res["stages"][-1]
+        try:
+            names = {v: "%s|%d" % k for k, v in P.ids.items()}
+            sd = py_spec_decisions(P)[i]
+            d["decision_spec_(list_as_written_read_on_the_AST)"] = "%s|%s" % (names.get(sd[0], "?"), str(sd[1]).lower())
+        except Exception:
+            pass
     if any(c == 8 for (_, c) in ev["errors"]):
         d["observed"] = "build error before/after optimisation differs: raw=%r optimised=%r" % P.build_note
     d["how"] = "feed `case_input(case)` to TestVerifC04 (harness/control/c04_test.go); spec decision = C04_Spec.decide on the list as written"
@@ -868,7 +875,7 @@ def main(argv):
            "trusted_base": vlib.TRUSTED_BASE_COMMON + [
                "meaning of a single value (atom_sem) and of an outbound (out_sem) are parameters of the theorems; in the correspondence run they are tables filled by the real builders/matchers (one single-value rule per value) and routing.ParseOutbound",
                "pkg/geodata protobuf reader and netip prefix printing (the generator's own reading of its .dat data is compared with the model's expansion and with the implementation's)",
-               "lowering of the AST to match sets (RulesBuilder.Apply, matcher scan) is not modelled here (C01/C07); it is exercised through the real matchers on probe packets"]}
+               "lowering of the AST to match sets is modelled at the level of (condition, key) groups (RulesBuilder.Apply, groupParamValuesByKey, scan loop); what each function parser does inside a group is C01/C07 and enters only through the real matchers' decisions on probe packets"]}
     out.coverage = cov
     out.assumptions = ["a value holds or not for a packet independently of the other values of its condition (function = negation xor OR of its values)",
                        "aliases and geodata references mean what the documentation says (alias_respecting, geo_respecting)",
@@ -915,14 +922,13 @@ def main(argv):
                 all_ev += evs
 
         def tie_idx():
-            # code 4 (matcher of the un-merged list <> spec) is explained when a condition lost all its values
-            # (class empty-geodata-expansion: the lowering drops such a condition); everything else is a broken tie
+            # impl <> model on the AST after a stage (1), on decisions of the compiled program (11, 12), oracle (5, 6)
             res = []
             for i, ev in enumerate(all_ev):
                 if ev["crashed"] or ev["skip"] is not None:
                     continue
                 codes = set(c for (_, c) in ev["errors"])
-                if codes & {1, 5, 6} or (4 in codes and not has_empty_expansion(ev["P"])):
+                if codes & {1, 5, 6, 11, 12}:
                     res.append(i)
             return res
 
@@ -986,10 +992,11 @@ def main(argv):
             if fatal:
                 what["correspondence"] = fatal
             ti, th = (tie_idx(), thm_idx()) if not fatal else ([], [])
+            ti.sort(key=lambda i: (spec_fails(all_ev[i]), i))
             if ti:
                 ev = all_ev[ti[0]]
                 what["correspondence_case"] = {"config_text": "\n".join(render_rule(r) for r in cases[ti[0]]["rules"]), "kind": cases[ti[0]]["kind"],
-                                               "errors": ev["errors"], "codes": "1 stage AST differs from model; 4 matcher of unmerged list differs from spec; 5 oracle table; 6 error expected",
+                                               "errors": ev["errors"], "codes": "1 stage AST differs from model; 11/12 decision of the real matcher differs from the model's lower+scan (optimised / un-merged list); 5 oracle table; 6 error expected",
                                                "impl_stages": ev["P"].res.get("stages") if ev["P"].res else None, "stage_errs": ev["P"].res.get("stage_errs") if ev["P"].res else None,
                                                "count": len(ti)}
             if th:
@@ -1007,11 +1014,11 @@ def main(argv):
             evaluations=len(all_ev), distinct_nontrivial=len(nontrivial), distinct_signatures=len(set(sigs)),
             rule="rule lists rendered as configuration text and parsed by the real parser; biased to neighbours sharing function/negation/outbound, repeated and overlapping values, "
                  "mixed keys, aliases dip/dport/domain keys, geosite/geoip/ext references incl. attribute filters, empty and failing expansions, outbounds with marks/must/must_rules; "
-                 "signature = (rules merged away, values removed by dedup, values added by geodata, negated-neighbour hazards, outbound-print hazards, dedup print collisions, model class); "
+                 "signature = (rules merged away, values removed by dedup, values added by geodata, negated-neighbour hazards, outbound-print hazards, dedup print collisions, model class, conditions left without values); "
                  "non-trivial = distinct signatures in which at least one optimizer changed the list",
-            traces_validated_against_impl=len([ev for ev in live if not ev["crashed"] and not any(c in (1, 5, 6) for (_, c) in ev["errors"])]),
+            traces_validated_against_impl=len([ev for ev in live if not ev["crashed"] and not any(c in (1, 5, 6, 11, 12) for (_, c) in ev["errors"])]),
             comparisons="per stage (alias, dat, merge+sort, dedup): impl AST = model AST; per probe: impl decision (optimised list) = spec decision on the list as written; "
-                        "impl decision (un-merged list) = spec; model decision = spec (code 3 if the partial theorems' hypotheses hold, 7 otherwise)",
+                        "impl decision (optimised / un-merged list) = model's compiled program (lower + scan of the model's lists); model decision = spec (code 3 if the partial theorems' hypotheses hold, 7 otherwise)",
             cases_by_kind=kinds, skipped=len(all_ev) - len(live),
             cases_merging=len([s for s in sigs if s[0] > 0]), cases_dedup=len([s for s in sigs if s[1] > 0]), cases_geodata=len([s for s in sigs if s[2] > 0]),
             cases_negated_hazard=len([s for s in sigs if s[3] > 0]), cases_model_error=len([s for s in sigs if s[6] == 1]), cases_model_crash=len([s for s in sigs if s[6] == 2]),
